@@ -52,7 +52,7 @@ func (m *RWMutex) RLock() {
 	m.mu.RLock()
 	m.readers.Add(1)
 }
-func (m *RWMutex) RUnlock() { m.readers.Add(-1); m.mu.RUnlock() }
+func (m *RWMutex) RUnlock()        { m.readers.Add(-1); m.mu.RUnlock() }
 func (m *RWMutex) RLocker() Locker { return (*rlocker)(m) }
 
 type rlocker RWMutex
